@@ -9,7 +9,7 @@ use crate::props::c02::*;
 use crate::props::c07::gen_history;
 use crate::refwriter::*;
 use crate::rng::Rng;
-use lopdf::verif_api::verif_hooks::{LAST_CONTAINERS, MERGE_ORDER};
+use lopdf::verif_api::verif_hooks::{LAST_CONTAINERS, LAST_ZERO_LENGTH, MERGE_ORDER, ZERO_ORDER};
 use lopdf::{Dictionary, Document, Object};
 use serde_json::json;
 
@@ -131,6 +131,59 @@ fn perm_independent(c: &mut Ctx, file: &[u8], stream: &str, max_perm: usize, per
         }
     }
 }
+/// streams whose Length is a reference to an integer stored in an object stream (their content is read after the
+/// parallel phase), mixed with genuinely empty streams (which that pass cannot complete) and streams whose Length
+/// reference leads to a non-integer
+fn craft_deferred_file(r: &mut Rng) -> Vec<u8> {
+    let m = 2 + r.usize(7);
+    let mut f = b"%PDF-1.5\n".to_vec(); let mut offs: Vec<(u32, usize)> = vec![];
+    offs.push((1, f.len())); f.extend_from_slice(b"1 0 obj\n<</Type/Catalog>>\nendobj\n");
+    // streams 10..10+m, their lengths are objects 40..40+m inside container 2
+    let mut lens: Vec<(u32, usize)> = vec![];
+    for i in 0..m {
+        let num = 10 + i as u32; let kind = r.below(5);
+        let data = if kind == 1 { vec![] } else { let n = 1 + r.usize(12); (0..n).map(|_| b'a' + r.below(26) as u8).collect::<Vec<u8>>() };
+        offs.push((num, f.len()));
+        let lenref = match kind { 1 => "0".to_string(), 2 => format!("{} 0 R", 10 + r.usize(m)), 3 => "99 0 R".to_string(), _ => { lens.push((40 + i as u32, data.len())); format!("{} 0 R", 40 + i) } };
+        f.extend_from_slice(format!("{} 0 obj\n<</Length {}>>\nstream\n", num, lenref).as_bytes());
+        f.extend_from_slice(&data); f.extend_from_slice(b"\nendstream\nendobj\n");
+    }
+    let mut body = vec![]; let mut index = String::new();
+    for (n, l) in &lens { index.push_str(&format!("{} {} ", n, body.len())); body.extend_from_slice(format!("{} ", l).as_bytes()); }
+    let first = index.len(); let mut content = index.into_bytes(); content.extend_from_slice(&body);
+    offs.push((2, f.len()));
+    f.extend_from_slice(format!("2 0 obj\n<</Type/ObjStm/N {}/First {}/Length {}>>\nstream\n", lens.len(), first, content.len()).as_bytes());
+    f.extend_from_slice(&content); f.extend_from_slice(b"\nendstream\nendobj\n");
+    let xoff = f.len(); offs.push((3, xoff));
+    let mut rows: Vec<u8> = vec![]; let mut index_arr = String::new();
+    offs.sort();
+    for (n, o) in &offs { rows.push(1); rows.extend_from_slice(&(*o as u16).to_be_bytes()); rows.extend_from_slice(&0u16.to_be_bytes()); index_arr.push_str(&format!("{} 1 ", n)); }
+    for (k, (n, _)) in lens.iter().enumerate() { rows.push(2); rows.extend_from_slice(&2u16.to_be_bytes()); rows.extend_from_slice(&(k as u16).to_be_bytes()); index_arr.push_str(&format!("{} 1 ", n)); }
+    f.extend_from_slice(format!("3 0 obj\n<</Type/XRef/Size 60/W[1 2 2]/Index[{}]/Root 1 0 R/Length {}>>\nstream\n", index_arr.trim_end(), rows.len()).as_bytes());
+    f.extend_from_slice(&rows); f.extend_from_slice(format!("\nendstream\nendobj\nstartxref\n{}\n%%EOF", xoff).as_bytes());
+    f
+}
+fn load_with_zero(bytes: &[u8], k: Option<usize>) -> Result<String, String> {
+    *ZERO_ORDER.lock().unwrap() = k;
+    let r = guard(|| Document::load_mem(bytes));
+    *ZERO_ORDER.lock().unwrap() = None;
+    match r { Ok(Ok(d)) => Ok(digest(&d)), Ok(Err(e)) => Err(format!("{:?}", e)), Err((site, msg)) => Err(format!("panic@{} {}", site, msg)) }
+}
+/// every completion order of the deferred streams that hook H2 can force must load the same document, = the model
+fn zero_independent(c: &mut Ctx, file: &[u8], stream: &str, zero_run: &mut u64) {
+    let base = match load_with_zero(file, None) { Ok(d) => d, Err(e) => { c.oracle_fail("load-error", &format!("{}: {}", stream, e), json!({"file": hex(file)})); return; } };
+    let n = *LAST_ZERO_LENGTH.lock().unwrap();
+    c.count(&format!("{}.deferred_{}", stream, n.min(9)));
+    if n < 2 { return; }
+    for k in 0..(2 * n).min(12) {
+        *zero_run += 1;
+        match load_with_zero(file, Some(k)) {
+            Ok(d) => if d != base { c.oracle_fail("completion-order-dependent", &format!("{}: completing the deferred streams in order #{} loads a different document", stream, k), json!({"file": hex(file), "k": k})); return; },
+            Err(e) => { c.oracle_fail("completion-order-dependent", &format!("{}: order #{}: {}", stream, k, e), json!({"file": hex(file)})); return; }
+        }
+        if k < 3 { let reply = { *ZERO_ORDER.lock().unwrap() = Some(k); let s = load_reply(file); *ZERO_ORDER.lock().unwrap() = None; s }; c.corr(format!("load_zero {} {}", k, hex_tok(file)), reply); }
+    }
+}
 /// the document must be the same on every pool size, repeatedly, and equal to the model's sequential semantics
 fn order_independent(c: &mut Ctx, file: &[u8], stream: &str, pool_loads: &mut u64) {
     let base = match load_with_order(file, None) { Ok(d) => d, Err(e) => { c.oracle_fail("load-error", &format!("{}: {}", stream, e), json!({"file": hex(file)})); return; } };
@@ -221,6 +274,15 @@ run in the no-default-features (sequential) build. Non-trivial = file with >= 2 
         perm_independent(c, &file, "multi_container", max_perm_containers, &mut perms_run);
         if i % 4 == 0 { order_independent(c, &file, "multi_container", &mut pool_loads); } else { c.corr(format!("load {}", hex_tok(&file)), load_reply(&file)); }
     }
+    // ---- deferred-length streams: every completion order (hook H2), pools, model
+    let mut zero_run = 0u64;
+    for i in 0..c.n(80, 800) {
+        let Some(mut r) = c.case("deferred", i) else { continue };
+        let file = craft_deferred_file(&mut r);
+        zero_independent(c, &file, "deferred", &mut zero_run);
+        if i % 4 == 0 { order_independent(c, &file, "deferred", &mut pool_loads); } else { c.corr(format!("load {}", hex_tok(&file)), load_reply(&file)); }
+    }
+    c.extra.insert("completion_orders_run".into(), json!(zero_run));
     // ---- witness F-C08-a: the same number in two containers -> two orders, two documents
     if let Some(mut r) = c.case("witness", 0) {
         let mut base = AObjects::new();
